@@ -72,6 +72,19 @@ func genNet(r *core.Rand, seed uint64, hostile bool) simnet.Cfg {
 	return c
 }
 
+// netBudget bounds the payload bytes of a scenario so that tiny segments or
+// tiny reads (every one of them is a simulator event) do not make a run slow.
+func netBudget(c simnet.Cfg, want int) int {
+	per := 3000
+	if c.SegMax > 0 && c.SegMax*per < want {
+		want = c.SegMax * per
+	}
+	if c.ReadMax > 0 && c.ReadMax*per < want {
+		want = c.ReadMax * per
+	}
+	return want
+}
+
 // c12gen carries the generator state of one connection.
 type c12gen struct {
 	r      *core.Rand
